@@ -216,3 +216,105 @@ def kd_cases(rng, tier, checks=frozenset({"rt", "valid", "consumed", "corr"})):
         g = G.Geom(False, len(rows), [], [_attr(rng, G.GENERIC, DT[d], dim, False, 0, len(rows), rows=rows)])
         cases.append(_case(rng, g, checks, "node64", level=6))
     return cases
+
+
+# ------------------------------------------------------------------ the tree coder alone (ops kdrt / kddec)
+
+def _rand_points(rng, n, dim, bl):
+    style = rng.choice(["uniform", "uniform", "cluster", "dups", "axis", "const"])
+    top = 1 << bl
+    if bl == 0:
+        return [[0] * dim for _ in range(n)]
+    pts = []
+    centers = [[rng.randrange(top) for _ in range(dim)] for _ in range(3)]
+    for i in range(n):
+        if style == "uniform":
+            p = [rng.randrange(top) for _ in range(dim)]
+        elif style == "cluster":
+            c = rng.choice(centers)
+            p = [min(top - 1, max(0, x + rng.randint(-3, 3))) for x in c]
+        elif style == "dups":
+            p = list(rng.choice(centers))
+        elif style == "axis":
+            p = [rng.randrange(top)] + [centers[0][j] for j in range(1, dim)]
+        else:
+            p = list(centers[0])
+        pts.append(p)
+    if rng.random() < 0.3:
+        pts[rng.randrange(n)] = [top - 1] * dim
+    if rng.random() < 0.3:
+        pts[rng.randrange(n)] = [0] * dim
+    return pts
+
+
+def kd_core_cases(rng, tier):
+    """`kdrt`: DynamicIntegerPointsKdTreeEncoder<level>::EncodePoints on explicit uint32 points (bytes compared
+    with the Lean encoder model, which uses the std::partition of libstdc++), then Decoder::DecodePoints of
+    those bytes (+ trailing bytes) compared with the Lean decoder model.
+    `kddec`: DecodePoints on corrupted encodings (byte flips, truncation, header edits), real decoder vs model."""
+    from vlib.engine import Case
+    thorough = tier == "thorough"
+    cases = []
+    sizes = [1, 2, 3, 4, 5, 8, 31, 63, 64, 65, 100, 129, 300] + ([700, 1500] if thorough else [])
+    reps = 3 if thorough else 1
+    for level in range(7):
+        for n in sizes * reps:
+            dim = rng.choice([1, 1, 2, 3, 3, 4, 6, 9, 15, 16 if level < 6 else 15])
+            bl = rng.choice([0, 1, 2, 5, 8, 10, 16, 31, 32]) if rng.random() < 0.7 else rng.randint(0, 32)
+            pts = _rand_points(rng, n, dim, bl)
+            # the declared bit length may exceed what the values need (never less: that is the caller's contract)
+            csv = ",".join(str(x) for p in pts for x in p)
+            trail = rng.choice(["-", "-", "00", "ffee01"])
+            c = Case(f"kdrt {level} {dim} {bl} {csv} {trail}", tags=("kdcore", "kdcore:level" + str(level)))
+            c.mtag = "model:kdrt"
+            cases.append(c)
+    return cases
+
+
+def kd_corrupt_cases(rng, tier):
+    """`kdmut`: the harness encodes explicit points, mutates the bytes (byte edits, truncation, insertions, header
+    edits) and runs Decoder::DecodePoints on them; the Lean decoder model gets the mutated bytes (`kddec`) and
+    must return the same verdict / points / consumed byte count.  The decoder is limited to about the original
+    point count, so a corrupted count cannot blow up the output."""
+    from vlib.engine import Case
+    thorough = tier == "thorough"
+    cases = []
+    for level in range(7):
+        for n in ([3, 8, 70, 130] if not thorough else [3, 8, 40, 70, 130, 400]):
+            dim = rng.choice([1, 2, 3, 5])
+            bl = rng.choice([1, 4, 10, 32])
+            pts = _rand_points(rng, n, dim, bl)
+            csv = ",".join(str(x) for p in pts for x in p)
+            for k in range(24 if not thorough else 60):
+                muts = []
+                r = rng.random()
+                if r < 0.5:
+                    for _ in range(rng.choice([1, 1, 2, 4])):
+                        muts.append(f"e{rng.randrange(1 << 20)}:{rng.choice([rng.randrange(256), 0, 255, 1 << rng.randrange(8)])}")
+                elif r < 0.7:
+                    muts.append(f"t{rng.randrange(1 << 20)}")
+                elif r < 0.85:   # header: bit_length, num_points, first coder's size
+                    muts.append(f"e{rng.randrange(24)}:{rng.choice([0, 1, 2, 31, 32, 33, 64, 128, 255])}")
+                else:
+                    for _ in range(rng.randint(1, 4)):
+                        muts.append(f"i{rng.randrange(1 << 20)}:{rng.randrange(256)}")
+                lim = rng.choice([n, n, n + 1, max(1, n - 1), 4 * n])
+                lv = level if rng.random() < 0.85 else rng.randint(0, 6)
+                d2 = dim if rng.random() < 0.85 else rng.choice([1, 2, 3, 4, 17])
+
+                def model(hout, lv=lv, d2=d2, lim=lim):
+                    if hout is None or " | " not in hout:
+                        return None
+                    return f"kddec {lv} {d2} {lim} {hout.split(' | ')[0]}"
+
+                def expect(hout, mout, case):
+                    if hout is None or " | " not in hout:
+                        return f"malformed harness output {str(hout)[:100]}"
+                    h = hout.split(" | ", 1)[1]
+                    return None if h == mout else f"DecodePoints on mutated bytes: implementation `{h[:200]}` model `{mout[:200]}`"
+
+                c = Case(f"kdmut {level} {dim} {bl} {csv} {lv} {d2} {lim} {','.join(muts)}", model=model, expect=expect,
+                         tags=("kdcorrupt",))
+                c.mtag = lambda mout: "model:kddec:" + ("ok" if (mout or "").startswith("ok") else "rejected")
+                cases.append(c)
+    return cases
